@@ -69,12 +69,36 @@ def oracle(c):
             fails.append(Failure("source", f"tract {i}: source {t.source!r} != parent's {c.get('source')!r}", **ctx))
         if t.orig_index != i:
             fails.append(Failure("orig_index", f"tract at position {i} has orig_index {t.orig_index}", **ctx))
+    # a tract whose Twp/Rge/Sec is corrected afterwards decomposes the new string (every attribute, also one that was read before)
+    if tracts and not fails and committed_like(c):
+        t = tracts[0]
+        _ = (t.twprge, t.twp, t.sec_num)
+        for how in ("trs_attribute", "set_twprgesec"):
+            new = "1s2e03" if t.trs != "1s2e03" else "7n8w09"
+            if how == "trs_attribute":
+                t.trs = new
+            else:
+                new = "145n7e02"
+                t.set_twprgesec("145n", "7e", 2)
+            got = (t.trs, t.twp, t.rge, t.sec, t.twprge, t.twp_num, t.rge_num, t.sec_num, t.twp_ns, t.rge_ew)
+            m = TRS_G.fullmatch(new)
+            want = (new, m.group("twp"), m.group("rge"), m.group("sec"), m.group("twp") + m.group("rge"), int(m.group("tn")), int(m.group("rn")), int(m.group("sec")),
+                    m.group("ns"), m.group("ew"))
+            if got != want:
+                k = next(i for i, (a, b) in enumerate(zip(got, want)) if a != b)
+                name = ("trs", "twp", "rge", "sec", "twprge", "twp_num", "rge_num", "sec_num", "twp_ns", "rge_ew")[k]
+                fails.append(Failure(f"decomposition_after_correction:{name}", f"tract re-assigned to {new!r} via {how}: {name} = {got[k]!r}, expected {want[k]!r}", **ctx))
+                break
     seen, out = set(), []
     for f in fails:
         if f.sig not in seen:
             seen.add(f.sig)
             out.append(f)
     return out
+
+
+def committed_like(c):
+    return True
 
 
 def nontrivial(c):
